@@ -13,6 +13,7 @@ import (
 	"encoding/json"
 	"errors"
 	"fmt"
+	"io"
 	"io/fs"
 	"net/http"
 	"net/url"
@@ -95,6 +96,11 @@ type behaviour struct {
 	// emptyFirst: the handler's first output is a zero-length Write (which
 	// commits the implicit 200 on a real connection); only with status == 0
 	emptyFirst bool
+	// via: how bytes are handed to the response (0 Write, 1 io.Copy, 2 io.WriteString)
+	via int
+	// flushFirst: the handler flushes before anything else (1 Flush, 2 FlushError),
+	// which commits the implicit 200; only with status == 0
+	flushFirst int
 }
 
 type request struct {
@@ -137,6 +143,43 @@ func (r *simResponse) Write(p []byte) (int, error) {
 		return 0, errors.New("simulated: client went away")
 	}
 	return r.body.Write(p)
+}
+
+// Like net/http's own response, the client side also takes whole readers and
+// strings and can be flushed; each of these commits the implicit 200 header.
+func (r *simResponse) ReadFrom(src io.Reader) (int64, error) {
+	if r.status == 0 {
+		r.status = 200
+	}
+	if r.fail {
+		simrt.Fault("client.write_error")
+		return 0, errors.New("simulated: client went away")
+	}
+	return r.body.ReadFrom(src)
+}
+
+func (r *simResponse) WriteString(s string) (int, error) { return r.Write([]byte(s)) }
+
+func (r *simResponse) Flush() {
+	if r.status == 0 {
+		r.status = 200
+	}
+}
+
+func (r *simResponse) FlushError() error { r.Flush(); return nil }
+
+// put writes s the way the behaviour says: Write, io.Copy from a plain reader
+// (which uses the writer's ReadFrom when it has one) or io.WriteString.
+func put(store *httpd.Store, b behaviour, s string) {
+	switch b.via {
+	case 1:
+		simrt.Probe("body_via_io_copy")
+		io.Copy(store.W, io.LimitReader(strings.NewReader(s), int64(len(s))))
+	case 2:
+		io.WriteString(store.W, s)
+	default:
+		store.W.Write([]byte(s))
+	}
 }
 
 type world struct {
@@ -718,6 +761,14 @@ func (w *world) c15Handler(store *httpd.Store) {
 		simrt.Probe("zero_length_first_write")
 		store.W.Write(nil)
 	}
+	switch b.flushFirst {
+	case 1:
+		simrt.Probe("flush_before_writing")
+		store.W.Flush()
+	case 2:
+		simrt.Probe("flush_before_writing")
+		store.W.FlushError()
+	}
 	if b.panicAt == 1 {
 		simrt.Probe("panic_before_writing")
 		w.raise(r)
@@ -725,7 +776,7 @@ func (w *world) c15Handler(store *httpd.Store) {
 	switch {
 	case b.status == 0:
 	case b.how == 1 && b.status == 200:
-		store.W.Write([]byte("implied"))
+		put(store, b, "implied")
 	case b.how == 2 && b.status == 200:
 		store.Respond200(nil)
 	case b.how == 2 && b.status == 500:
@@ -742,12 +793,12 @@ func (w *world) c15Handler(store *httpd.Store) {
 		w.raise(r)
 	}
 	if b.body {
-		store.W.Write([]byte("part1 "))
+		put(store, b, "part1 ")
 		if b.panicAt == 3 {
 			simrt.Probe("panic_after_partial_body")
 			w.raise(r)
 		}
-		store.W.Write([]byte("part2"))
+		put(store, b, "part2")
 	} else if b.panicAt == 3 {
 		w.raise(r)
 	}
@@ -801,6 +852,10 @@ func (w *world) mainC15() {
 			if b.status == 0 && ch("beh.empty_first_write", 3) == 0 {
 				b.emptyFirst = true
 			}
+			b.via = ch("beh.via", 3)
+			if b.status == 0 && ch("beh.flush_first", 4) == 0 {
+				b.flushFirst = 1 + ch("beh.flush_kind", 2)
+			}
 			mine = append(mine, r)
 		}
 		simrt.GoNamed(name, "harness", func() {
@@ -841,8 +896,8 @@ func (w *world) mainC15() {
 		seenTid[r.tid] = r.id
 		// what the client received: replay the handler's script up to its panic
 		written, code, want := false, 0, 0
-		if b.emptyFirst {
-			want = 200 // committed by the zero-length write, whatever happens next
+		if b.emptyFirst || b.flushFirst != 0 {
+			want = 200 // committed by the zero-length write or the flush, whatever happens next
 		} else if b.panicAt == 1 {
 			want = 500
 		} else {
